@@ -193,6 +193,21 @@ def build(case):
                     del x.name
                 for c in list(d.cables)[:1]:
                     del c.name
+    if extra == "definition-removed":
+        # a non-leaf definition leaves the netlist while its children still instantiate surviving cells
+        top = n.top_instance.reference
+        for l in n.libraries:
+            for d in list(l.definitions):
+                if d is not top and len(d.children) and all(x.parent is not None for x in d.references):
+                    for x in list(d.references):
+                        par = x.parent
+                        for op in list(x.pins):
+                            if op.wire is not None:
+                                op.wire.disconnect_pin(op)
+                        x.reference = None
+                        par.remove_child(x)
+                    l.remove_definition(d)
+                    return n
     if extra == "top-also-child":
         holder = n.libraries[0].create_definition(name="HOLDER")
         holder.add_child(n.top_instance)
@@ -323,7 +338,7 @@ def query_agreement(n, c, m, tag):
 
 
 engine_b.WORKERS[ID] = worker
-EXTRAS = ("plain", "unnamed", "top-also-child")
+EXTRAS = ("plain", "unnamed", "top-also-child", "definition-removed")
 
 
 def cases(tier):
